@@ -253,16 +253,23 @@ func (m *BaseUndoLogManager) Undo(ctx context.Context, dbType types.DBType, xid 
 	if err != nil {
 		return err
 	}
+	// give the connection back to the pool once the undo transaction has ended
+	defer func() {
+		if cerr := conn.Close(); cerr != nil {
+			log.Errorf("conn close fail, xid: %s, branchID:%d err:%v", xid, branchID, cerr)
+		}
+	}()
 
 	tx, err := conn.BeginTx(ctx, &sql.TxOptions{})
 	if err != nil {
 		return err
 	}
+	committed := false
 	defer func() {
-		if err != nil {
-			if err = tx.Rollback(); err != nil {
-				log.Errorf("rollback fail, xid: %s, branchID:%s err:%v", xid, branchID, err)
-				return
+		// every path that did not commit ends the transaction here; the result of the undo stays in err
+		if !committed {
+			if rerr := tx.Rollback(); rerr != nil {
+				log.Errorf("rollback fail, xid: %s, branchID:%d err:%v", xid, branchID, rerr)
 			}
 		}
 	}()
@@ -273,9 +280,8 @@ func (m *BaseUndoLogManager) Undo(ctx context.Context, dbType types.DBType, xid 
 		return err
 	}
 	defer func() {
-		if err = stmt.Close(); err != nil {
-			log.Errorf("stmt close fail, xid: %s, branchID:%s err:%v", xid, branchID, err)
-			return
+		if cerr := stmt.Close(); cerr != nil {
+			log.Errorf("stmt close fail, xid: %s, branchID:%d err:%v", xid, branchID, cerr)
 		}
 	}()
 
@@ -285,9 +291,8 @@ func (m *BaseUndoLogManager) Undo(ctx context.Context, dbType types.DBType, xid 
 		return err
 	}
 	defer func() {
-		if err = rows.Close(); err != nil {
-			log.Errorf("rows close fail, xid: %s, branchID:%s err:%v", xid, branchID, err)
-			return
+		if cerr := rows.Close(); cerr != nil {
+			log.Errorf("rows close fail, xid: %s, branchID:%d err:%v", xid, branchID, cerr)
 		}
 	}()
 
@@ -374,9 +379,10 @@ func (m *BaseUndoLogManager) Undo(ctx context.Context, dbType types.DBType, xid 
 	}
 
 	if err = tx.Commit(); err != nil {
-		log.Errorf("[Undo] execute on fail, err: %v", err)
-		return nil
+		log.Errorf("[Undo] commit fail, err: %v", err)
+		return err
 	}
+	committed = true
 	return nil
 }
 
